@@ -147,10 +147,32 @@ func touches(n ast.Node) bool {
 	return found
 }
 
+// yieldTag: appended to the label of the next yield (the callee when the statement calls one of a
+// few named methods: a harness can then hold a goroutine at exactly that call without relying on
+// the statement numbering).
+var yieldTag string
+
 func yield() ast.Stmt {
 	count++
+	label := fmt.Sprintf("%s#%d", curFn, count)
+	if yieldTag != "" {
+		label += ":" + yieldTag
+		yieldTag = ""
+	}
 	return &ast.ExprStmt{X: &ast.CallExpr{Fun: &ast.SelectorExpr{X: ast.NewIdent("verifhook"), Sel: ast.NewIdent("Yield")},
-		Args: []ast.Expr{&ast.BasicLit{Kind: token.STRING, Value: fmt.Sprintf("%q", fmt.Sprintf("%s#%d", curFn, count))}}}}
+		Args: []ast.Expr{&ast.BasicLit{Kind: token.STRING, Value: fmt.Sprintf("%q", label)}}}}
+}
+
+func namedCallee(st ast.Stmt) (name string) {
+	ast.Inspect(st, func(n ast.Node) bool {
+		if c, ok := n.(*ast.CallExpr); ok {
+			if sel, ok := c.Fun.(*ast.SelectorExpr); ok && (sel.Sel.Name == "AcceptWithCid" || sel.Sel.Name == "DialWithCid") {
+				name = sel.Sel.Name
+			}
+		}
+		return name == ""
+	})
+	return
 }
 
 func headerTouches(st ast.Stmt) (before bool, perIter bool) {
@@ -239,6 +261,7 @@ func rewriteList(list []ast.Stmt) []ast.Stmt {
 		}
 		before, perIter := headerTouches(st)
 		if before {
+			yieldTag = namedCallee(st)
 			out = append(out, yield())
 		}
 		if perIter {
